@@ -1,4 +1,5 @@
 from vlib.core import Ob
+from props._compose import pick
 ID = "C10"
 LEVEL = "model_checking"
 FUNCTIONS = ["hash", "hash_data", "Int_Hash", "Float_Hash", "String_Hash", "Type_Hash", "assign", "swap", "memswap", "Int_Assign", "Float_Assign", "String_Assign", "String_New", "eq", "cmp"]
@@ -18,6 +19,7 @@ OBLIGATIONS = [
        unwind=max(n, 9) + 3, checks=["bounds", "pointer"], tiers=(Q if (n, o) in QUICKSET else ("thorough",)), timeout=1800, link=["Hash.c"], backend="z3")
     for (n, o) in ALLSET
 ]
+OBLIGATIONS += pick("C09", r"container_cmp\.(array|list)\.n[23]m[23]")
 LEVEL_TEXT = ("Bounded model checking: Int/Float hash and eq at full 64-bit / IEEE width, String content up to the stated length, hash_data differentially "
               "against an independent MurmurHash64A for the listed (length, alignment) pairs; SMT back end (z3) for the multiply kernels.")
-LEVEL_NOTE = "Trusted: cbmc + z3 word-level semantics; reference MurmurHash64A written from the published algorithm; container hashes are covered only through element-hash independence (XOR fold) -- see DESIGN.md."
+LEVEL_NOTE = "Trusted: cbmc + z3 word-level semantics; reference MurmurHash64A written from the published algorithm; Array/List hashes are the XOR fold of uninterpreted element hashes (container_cmp obligations); Table/Tree hashes and Table equality are not covered (Table_Cmp compares in slot order: known finding)."
